@@ -3,6 +3,6 @@
 expr="$1"; file="$2"; shift 3
 sed -i "$expr" /repo/$file
 git -C /repo diff --stat | tail -1
-"$@"; rc=$?
+VERIF_SCRATCH_RUN=1 "$@"; rc=$?
 git -C /repo checkout -- . 
 echo "mutant rc=$rc"
